@@ -219,23 +219,29 @@ def one_case(ctx, drv, case):
     if any(sum(a + b for a, b in row) == 1 and all(x == [0, 0] for x in [list(r) for r in row[:-1]]) and row[-1][0] == 0 and
            F(case["ops"][i][-1]["base"]) * case["tps"] < 1 for i, row in enumerate(spec["ticks"])):
         ctx.sit("zero_tick_operator")
-    if why and flagged and not case["lattice"]:
-        # the property grants either side at a float-rounding boundary: try the neighbouring tick counts of flagged segments
+    # off the binary-exact lattice the property grants either side at a float-rounding boundary -- of a tick count, and of the memory limit: a demand that
+    # equals the allocation exactly in decimal (35 x 0.0002 GB against 0.007 GB) may compare as "exceeds" in floating point, which is the documented
+    # model run with the limit one quantum lower
+    limit_boundary = (not case["lattice"]) and ramq > 1 and ramq in spec["mem"]
+    if why and (flagged or limit_boundary) and not case["lattice"]:
         per_seg = [list(itertools.product(*c)) for c in flags]
-        combos = itertools.islice(itertools.product(*per_seg), 1024)
-        for combo in combos:
-            adj = []
-            k = 0
-            for segs in case["ops"]:
-                row = [list(combo[k + j]) for j in range(len(segs))]
-                k += len(segs)
-                if sum(a + b for a, b in row) == 0:
-                    row[-1][1] = 1
-                adj += row
-            sp2 = drv.send(f"spec {case['cpus']} {ramq} {refs} " + ",".join(f"{a}:{b}" for a, b in adj))
-            if compare(case, impl, sp2) is None:
-                ctx.sit("accepted_at_flagged_boundary")
-                why = None
+        for ram_try in ([ramq, ramq - 1] if limit_boundary else [ramq]):
+            combos = itertools.islice(itertools.product(*per_seg), 1024)
+            for combo in combos:
+                adj = []
+                k = 0
+                for segs in case["ops"]:
+                    row = [list(combo[k + j]) for j in range(len(segs))]
+                    k += len(segs)
+                    if sum(a + b for a, b in row) == 0:
+                        row[-1][1] = 1
+                    adj += row
+                sp2 = drv.send(f"spec {case['cpus']} {ram_try} {refs} " + ",".join(f"{a}:{b}" for a, b in adj))
+                if compare(case, impl, sp2) is None:
+                    ctx.sit("accepted_at_flagged_boundary" if ram_try == ramq else "accepted_at_limit_boundary")
+                    why = None
+                    break
+            if why is None:
                 break
     if why:
         ctx.violations.append({"what": "container does not follow the documented time/memory model: " + why, "layer": "C05",
